@@ -7,6 +7,10 @@ import (
 
 // GlobCache implements an LRU cache for compiled glob patterns.
 type GlobCache struct {
+	// mu serializes the slow path of Get. It guards l, h and n
+	// and all modifications of m.
+	mu sync.Mutex
+
 	// m maps patterns to compiled glob matchers.
 	m sync.Map
 
@@ -41,6 +45,15 @@ func (c *GlobCache) Get(pattern string) (glob.Glob, error) {
 	glbCompiled, err := glob.Compile(pattern)
 	if err != nil {
 		return nil, err
+	}
+
+	c.mu.Lock()
+	defer c.mu.Unlock()
+
+	// another goroutine may have added the pattern
+	// while we were waiting for the lock.
+	if glb, ok := c.m.Load(pattern); ok {
+		return glb.(glob.Glob), nil
 	}
 
 	// if the LRU buffer is not full just append
